@@ -33,7 +33,7 @@ func runE2E(c E2E) (f *failure, nt bool) {
 	defer w.Close()
 	unsub := false
 	for i, st := range c.Steps {
-		if st.Op == "unsub" {
+		if st.Op == "unsub" || st.Op == "rpcunsub" {
 			unsub = true
 		}
 		if st.Op == "pub" && unsub {
@@ -118,7 +118,36 @@ func TestE2E(t *testing.T) {
 				c.Steps = append(c.Steps, sim.Step{Op: "connect", C: ci, Node: rapid.IntRange(0, c.Nodes-1).Draw(t, "node"), ClientID: fmt.Sprintf("c%d", ci), KeepAlive: 6000})
 				continue
 			}
-			switch x := rapid.IntRange(0, 11).Draw(t, "op"); {
+			switch x := rapid.IntRange(0, 12).Draw(t, "op"); {
+			case x == 12:
+				// an operator removes one of the session's subscriptions behind its back (waspctl);
+				// the session often asks for the same filter again afterwards
+				f := rapid.SampledFrom(e2eFilters).Draw(t, "filter")
+				held := -1
+				for _, st := range c.Steps {
+					if st.C != ci {
+						continue
+					}
+					for k, g := range st.Filters {
+						if st.Op == "sub" && g == f {
+							held = st.QoS[k]
+						}
+					}
+				}
+				if held < 0 {
+					held = rapid.IntRange(0, 2).Draw(t, "qos")
+					c.Steps = append(c.Steps, sim.Step{Op: "sub", C: ci, Filters: []string{f}, QoS: []int{held}})
+				}
+				c.Steps = append(c.Steps, sim.Step{Op: "rpcunsub", C: ci, Node: rapid.IntRange(0, c.Nodes-1).Draw(t, "rpcnode"), Filters: []string{f}})
+				if rapid.IntRange(0, 3).Draw(t, "again") > 0 {
+					q := held
+					if rapid.IntRange(0, 3).Draw(t, "otherqos") == 0 {
+						q = rapid.IntRange(0, 2).Draw(t, "qos2")
+					}
+					c.Steps = append(c.Steps, sim.Step{Op: "sub", C: ci, Filters: []string{f}, QoS: []int{q}})
+				}
+				payload++
+				c.Steps = append(c.Steps, sim.Step{Op: "pub", C: rapid.IntRange(0, c.Clients-1).Draw(t, "publisher"), Topic: rapid.SampledFrom(e2eTopics).Draw(t, "topic"), Payload: fmt.Sprintf("p%d", payload), PQoS: byte(rapid.IntRange(0, 1).Draw(t, "pqos"))})
 			case x < 5:
 				nf := rapid.IntRange(1, 3).Draw(t, "nfilters")
 				st := sim.Step{Op: "sub", C: ci}
